@@ -14,7 +14,7 @@ ws = os.path.join(runner.WORK, 'ws')
 os.makedirs(ws, exist_ok=True)
 with runner.Lock(os.path.join(runner.WORK, 'lock')):
     transform.sync(runner.REPO, ws)
-    for crate in ('biscuit-auth', 'biscuit-capi'):
+    for crate in ('biscuit-auth',):
         if not os.path.isdir(os.path.join(ws, crate)):
             continue
         cmd = ['cargo', 'kani', '-Z', 'stubbing', '-Z', 'unstable-options', '--only-codegen',
